@@ -77,11 +77,17 @@ def respelled_programs(rng: random.Random, n: int) -> list[str]:
 
 def validate(rep, recs, tag):
     out, drift = [], []
-    B = 4000
-    for k in range(0, len(recs), B):
+    # batches bounded by volume (code points), not only by count: texts are passed as sequences of code points and a batch of
+    # thousands of long programs would make TLC spend its time deserialising and collecting garbage
+    k = 0
+    while k < len(recs):
+        n, vol = 0, 0
+        while k + n < len(recs) and n < 4000 and (n == 0 or vol + len(recs[k + n]["text"]) <= 600000):
+            vol += len(recs[k + n]["text"])
+            n += 1
         path = os.path.join(common.scratch(), f"c17-{tag}-{k}.json")
         with open(path, "w") as fh:
-            json.dump(recs[k:k + B], fh)
+            json.dump(recs[k:k + n], fh)
         res = common.run_tlc("PygLexer", "PygLexer_cases.cfg", {"CASES_FILE": path})
         os.unlink(path)
         rep.add_tlc(res)
@@ -90,6 +96,7 @@ def validate(rep, recs, tag):
         for pr in res["prints"]:
             if pr and common.tla_unquote(pr[0]) == "DRIFT":
                 drift.append(k + int(pr[1]) - 1)
+        k += n
     return out, drift
 
 
